@@ -23,6 +23,8 @@ where
         if from < stored_len {
             let stored_to = to.min(stored_len);
             let reader = self.create_reader();
+            #[cfg(anydb_verif)]
+            crate::verif_locks::tap("pages", &self.pages, false);
             let pages = self.pages.read();
             Self::read_stored_pages_into(&reader, &pages, from, stored_to, buf);
         }
